@@ -249,11 +249,14 @@ def step(root, scratch, src_model, lab, dst_model, src_ans, seed=0, who=None, op
             return res
         try:
             real = X.project(root, side)
-        except X.Unprojectable as e:
-            res["shape"].append(f"unprojectable: {e}")
-            return res
-        res["real"] = {k: real[k] for k in ("n", "par", "loose", "packs", "lref", "pref", "cg", "midx", "bmp")}
-        res["shape"] = shape_diff(dst_model, real)
+        except Exception as e:
+            # the harness' own parsers cannot make sense of the directory (e.g. a malformed accelerator file):
+            # that is a shape finding; what the readers answer is still observed and compared below
+            real = None
+            res["shape"].append(f"unprojectable: {type(e).__name__}: {e}")
+        if real is not None:
+            res["real"] = {k: real[k] for k in ("n", "par", "loose", "packs", "lref", "pref", "cg", "midx", "bmp")}
+            res["shape"] = shape_diff(dst_model, real)
         aw = X.battery(w, side, light=light)
     finally:
         w.close()
